@@ -136,6 +136,34 @@ impl RefKey {
     }
 }
 
+/// What a forger who holds one genuine signature can compute from public data: the same signature with
+/// Winternitz chain `i` advanced by `steps` further hash steps (the value a verifier would reach later in that
+/// chain). A correct verifier must refuse it: the message digits and the checksum pin every chain position.
+/// Returns None if the chain is already at its end or the signature is not well formed.
+pub fn advance_chain(prm: &Params, id: &[u8], msg: &[u8], sig: &[u8], i: usize, steps: usize) -> Option<Vec<u8>> {
+    let (p, _) = prm.p_ls();
+    let n = prm.n;
+    if sig.len() != prm.sig_len() || i >= p {
+        return None;
+    }
+    let q = u32::from_be_bytes([sig[0], sig[1], sig[2], sig[3]]);
+    let c = &sig[8..8 + n];
+    let qh = prm.hash(&[id, &q.to_be_bytes(), &D_MESG, c, msg], n);
+    let mut qc = qh.clone();
+    qc.extend_from_slice(&prm.cksm(&qh).to_be_bytes());
+    let a = prm.coef(&qc, i);
+    let top = (1usize << prm.w) - 1;
+    if a >= top {
+        return None;
+    }
+    let to = (a + steps.max(1)).min(top);
+    let off = 8 + n + i * n;
+    let y = prm.chain(id, q, i, a, to, &sig[off..off + n]);
+    let mut s = sig.to_vec();
+    s[off..off + n].copy_from_slice(&y);
+    Some(s)
+}
+
 /// RFC 8554 algorithm 6a against public key (id, root).
 pub fn verify(prm: &Params, id: &[u8], root: &[u8], msg: &[u8], sig: &[u8]) -> bool {
     if sig.len() < 8 {
